@@ -421,6 +421,8 @@ def execute(case: dict) -> RunResult:
         desc = code_name(comp["code"]) if "code" in comp else (C.mod_name(comp["mod"]) if "mod" in comp else f"{comp['constraint']}={comp['value']}")
         res.violations.append(Violation(sig, f"C20/{cname} {desc}: {msg}"))
 
+    held = []  # results the caller keeps (does not overwrite) while it goes on calling the same component
+
     for ci, call in enumerate(case["calls"]):
         lay = call["layout"]
         lay_kind = lay.split(":")[0]
@@ -490,6 +492,11 @@ def execute(case: dict) -> RunResult:
             continue
         log.add("call", {"i": ci, "layout": lay, "members": members, "out": out})
         res.faults[f"delivery.{lay_kind}"] += 1
+        for cj, lk_, t_, snap_ in held:
+            if t_.shape != snap_.shape or not bool(((t_ == snap_) | ((t_ != t_) & (snap_ != snap_))).all()):
+                violate("earlier_result_changed", f"the tensor returned by call {cj} ({lk_}), which the caller still holds, was changed by call {ci} ({lay}, members {members})", layout=lay_kind)
+                held = []
+                break
         if not torch.equal(x, x0):
             violate("input_modified", f"call {ci} ({lay}, members {members}) modified its input tensor", layout=lay_kind)
         if isinstance(out, tuple) != bool(call.get("second")):
@@ -514,7 +521,14 @@ def execute(case: dict) -> RunResult:
                 answers2[m].append((ctxd, part[1].clone()))
             else:
                 answers[m].append((ctxd, part.clone()))
-        # the caller owns what was returned and may overwrite it in place; that must not reach into the component
+        # the caller owns what was returned: it may keep it while it goes on calling (every third call), or overwrite it in place;
+        # neither may interact with the component's later answers
+        if ci % 3 == 1:
+            for o_ in (out if isinstance(out, tuple) else (out,)):
+                if isinstance(o_, torch.Tensor) and o_.numel():
+                    held.append((ci, lay_kind, o_, o_.clone()))
+            res.probes["output.kept_by_caller"] += 1
+            continue
         for o_ in (out if isinstance(out, tuple) else (out,)):
             if isinstance(o_, torch.Tensor) and o_.numel() and o_.data_ptr() != x.data_ptr():
                 try:
